@@ -29,6 +29,10 @@ void DataArray::ioRead(DataType dtype, void *data, const NDSize &count, const ND
     boost::optional<double> opt_origin = expansionOrigin();
 
     if (poly.size() || opt_origin) {
+        if (!data_type_is_numeric(dtype)) {
+            // the calibrated values are doubles, they cannot be converted in place into strings or booleans
+            throw std::invalid_argument("DataArray: calibrated data (polynom coefficients / expansion origin) can only be read as a numeric type");
+        }
         size_t data_esize = data_type_to_size(dtype);
         size_t nelms = check::fits_in_size_t(count.nelms(),
 			"Cannot apply polynom or origin transform. Buffer needed exceeds memory.");
